@@ -10,6 +10,9 @@ modelled): the regex parse of a text into components and percent-decoding
 (`URL.ofComponents` takes the components), percent-quoting in `to_text` (components are
 drawn from characters that are never quoted), the IDNA codec, and the query string
 (an opaque text; `[]` = "no parameters" = a falsy `query_params`).
+`toText` is compared with the real `to_text()` for URLs that have a host; for URLs without a host the
+correspondence compares the public components instead (how an empty authority is written is being
+repaired under property C06; no C07 theorem depends on that branch of `toText`).
 Core Lean only.
 -/
 namespace C07
